@@ -6,6 +6,8 @@
      X  dispatch_release of the client's reference to the queue        (C17; only as last queue op)
    A letter may be followed by a digit naming the queue it addresses: 0 = top queue (default), 1 = its target queue (only with CHAIN), 2 = a sibling queue
    targeting the same bottom queue (only with FANIN).
+   '~' after an item-submitting op means: the NEXT op is issued by the running item itself (same thread) from inside its body (C18: synchronous submission
+       from within a work item).
    '^' after an item-submitting op means: the NEXT op is issued by client thread B from inside the body of that item, while it is running.
        If B has to block, B's path ends there (it would resume only after the item finished); everything B did before is checked.
    Configurations (defines):  QCONC top queue concurrent; CHAIN top queue targets a serial queue; FANIN second queue on the same bottom queue;
@@ -30,6 +32,8 @@ static _Bool is_sync(char c) { return c == 's' || c == 'B' || c == 'w'; }
 static _Bool is_item(char c) { return c == 'a' || c == 'b' || c == 's' || c == 'B' || c == 'w' || c == 'g'; }
 static _Bool is_barrier_item(int i) { return kind[i] == 'b' || kind[i] == 'B' || !q_conc[item_qi[i]] ; }
 static void do_op(int s, int thread);
+static int hist_pos;
+static int self_op[NITEMS], item_parent[NITEMS]; static int assert_fail_calls; static _Bool expect_assert_fail;
 #if defined(NATIVE_REPLAY) && defined(HIST_TRACE)
 static void hdump(const char *w) { for (int k = 0; k < NQ; k++) if (k < nq) __builtin_printf("  [%s: queue %d state=%016llx tail=%llx head=%llx]\n", w, k, IR_LD64(Q[k] + P_OFF_dq_state), IR_LD64(Q[k] + P_OFF_items_tail), IR_LD64(Q[k] + P_OFF_items_head)); }
 #define HDUMP(w) hdump(w)
@@ -42,6 +46,32 @@ static int op_len(int s) { int n = 1; if (OPS[s + n] >= '0' && OPS[s + n] <= '2'
 #define DOMAIN_SERIAL 1     /* the bottom of the hierarchy is a serial queue: at most one item of the whole hierarchy runs at a time */
 #else
 #define DOMAIN_SERIAL 0
+#endif
+#ifdef IDENTITY
+/* C18 identity: reference semantics written from the documentation.  chain(q) = q and the queues it targets (down to, not including, the root queue). */
+#define KEY 0x5150ull
+static _Bool targets[NQ][NQ];      /* targets[a][b]: b is on the target chain of a (a itself included) */
+static int nextq[NQ] = { -1, -1, -1 };
+static _Bool has_spec[NQ];
+static _Bool member_of_item(int i, int k) {      /* is Q[k] on the chain of the queue item i was submitted to, or (synchronous submissions) of the submitting item's context */
+  if (targets[item_qi[i]][k]) return 1;
+  if (is_sync(kind[i]) && item_parent[i] >= 0) return member_of_item(item_parent[i], k);
+  return 0; }
+void _dispatch_assert_queue_fail(u64 dq, _Bool expected) { assert_fail_calls++;
+  ASSERT(expect_assert_fail, "IDENTITY: dispatch_assert_queue rejected a queue of the item's chain (or dispatch_assert_queue_not rejected a queue outside it)");
+  WITNESS_REACHED("the assertion API crashed as it must (path ends)"); ASSUME(0); }
+static void identity_checks(int i) {
+  int qi = item_qi[i];
+  /* nearest queue on the chain (from the queue the item runs on, down its targets) that has the key */
+  u64 want = 0; { int c = qi; for (int hop = 0; hop < NQ; hop++) if (c >= 0 && want == 0) { if (has_spec[c]) want = 0x1000ull + (u64)c; c = nextq[c]; } }
+  ASSERT(dispatch_get_specific(KEY) == want, "SPECIFIC: dispatch_get_specific returns the value of the nearest queue in the chain that has the key, or NULL");
+  for (int k = 0; k < NQ; k++) if (k < nq) { if (member_of_item(i, k)) dispatch_assert_queue(Q[k]); else dispatch_assert_queue_not(Q[k]); }
+#ifdef NEGTEST
+  if (i == NEGITEM) { expect_assert_fail = 1;
+    if (member_of_item(i, NEGTEST)) dispatch_assert_queue_not(Q[NEGTEST]); else dispatch_assert_queue(Q[NEGTEST]);
+    ASSERT(0, "IDENTITY: dispatch_assert_queue_not accepted a queue of the item's chain (or dispatch_assert_queue accepted a queue outside it)"); }
+#endif
+}
 #endif
 static void hist_item_body(int i) {
   int qi = item_qi[i];
@@ -59,6 +89,10 @@ static void hist_item_body(int i) {
     }
   }
   ASSERT(ncur < 4, "harness bound: nesting depth"); cur_items[ncur++] = i;
+#ifdef IDENTITY
+  identity_checks(i);
+#endif
+  if (self_op[i] >= 0) { int k = self_op[i]; self_op[i] = -1; do_op(k, ir_cur); }
   if (nested_op[i] >= 0) { int k = nested_op[i]; nested_op[i] = -1; _Bool save = in_nested; in_nested = 1; do_op(k, 2); in_nested = save; }
   ncur--;
 }
@@ -73,6 +107,8 @@ static void do_op(int s, int thread) {
   if (is_item(c)) {
     ASSERT(nsub < NITEMS, "harness bound: too many items"); int i = nsub++; kind[i] = c; item_qi[i] = qi; sub_s[i] = ++seqno;
     nested_op[i] = (OPS[s + op_len(s)] == '^') ? s + op_len(s) + 1 : -1;
+    self_op[i] = (OPS[s + op_len(s)] == '~') ? s + op_len(s) + 1 : -1;
+    item_parent[i] = (ncur > 0 && thread == item_thread[cur_items[ncur - 1]]) ? cur_items[ncur - 1] : -1;     /* submitted from inside a running item by that item's own thread */
     if (c == 'a') dispatch_async_f(q, (u64)i, FN_ITEM);
     else if (c == 'b') dispatch_barrier_async_f(q, (u64)i, FN_ITEM);
     else if (c == 's') dispatch_sync_f(q, (u64)i, FN_ITEM);
@@ -90,14 +126,14 @@ static void do_op(int s, int thread) {
   else ASSERT(0, "unknown op letter");
   ir_cur = me;
 }
-static int hist_pos;
+
 /* execute the next operation of the sequence on behalf of `thread` */
 static _Bool hist_step(int thread) {
   if (hist_pos >= NOPS) return 0;
   int s = hist_pos; char c = OPS[s];
   if (c == 'R') { hist_pos = s + 1; if (npend > 0) run_one_worker(0); HDUMP("after worker"); }                 /* a worker takes the oldest pending hand-off */
   else if (c == 'L') { hist_pos = s + 1; if (npend > 0) run_one_worker(npend - 1); }    /* a worker takes the newest pending hand-off */
-  else { int n = op_len(s); if (OPS[s + n] == '^') { n++; n += op_len(s + n); }        /* a nested op is consumed by the item body */
+  else { int n = op_len(s); if (OPS[s + n] == '^' || OPS[s + n] == '~') { n++; n += op_len(s + n); }        /* a nested op is consumed by the item body */
          hist_pos = s + n; do_op(s, thread); HDUMP("after op"); }
   return 1;
 }
@@ -134,8 +170,20 @@ void harness(void) {
 #ifdef FANIN
   Q[2] = mkqueue(0, 0, Q[1]); q_conc[2] = 0; nq = 3;
 #endif
+#elif defined(INDEP)
+  Q[0] = mkqueue(conc0, inact0, 0); Q[2] = mkqueue(0, 0, 0); Q[1] = mkqueue(0, 0, 0); q_conc[1] = 0; q_conc[2] = 0; nq = 3;        /* three unrelated queues, each targeting a root queue */
 #else
   Q[0] = mkqueue(conc0, inact0, 0); nq = 1;
+#endif
+#ifdef IDENTITY
+  for (int k = 0; k < NQ; k++) targets[k][k] = 1;
+#if defined(CHAIN) || defined(FANIN)
+  targets[0][1] = 1; nextq[0] = 1;
+#endif
+#ifdef FANIN
+  targets[2][1] = 1; nextq[2] = 1;
+#endif
+  for (int k = 0; k < NQ; k++) if (k < nq && ((SPECMASK >> k) & 1)) { has_spec[k] = 1; dispatch_queue_set_specific(Q[k], KEY, 0x1000ull + (u64)k, 0); }
 #endif
   q_conc[0] = conc0; inactive[0] = inact0;
   rootq = IR_LD64(Q[nq > 1 ? 1 : 0] + P_OFF_do_targetq);
